@@ -154,6 +154,13 @@ def gen_case(rng, tier):
         else:
             from .c16 import put
             put(doc2, loc, node)
+    # hostile values: plain strings spelled exactly like paths / reference texts used in this case
+    spell = [gen.path_str(r['loc']) for r in refs] + [r['target'] for r in refs]
+    leaves = [nd for _, nd in emit.walk(base) if nd is not None and nd.get('t') == 'sc' and isinstance(nd.get('v'), str)]
+    for nd in leaves:
+        if rng.random() < 0.25:
+            nd['v'] = rng.choice(spell)
+            nd['style'] = 'dq'
     container_cycle = None
     if rng.random() < 0.05:
         base['items'].append(['cyc', M([['x', SP('xref', path='cyc')], ['y', S('inner', style='dq')]])])
